@@ -7,6 +7,8 @@ pages of a real `cherrypy.Application`, and says how the (simulated) WSGI server
      'gtb': 0|1 (request.show_tracebacks in the global config; default 1),
      'pages': [{'dispatch': OUT, 'ns': OUT, 'body': OUT, 'handler': [OUT, SHAPE, STATUS|None],
                 'errResp': None|OUT, 'errPage': 'absent'|'cbOk'|'cbFail'|'tmplFail', 'tb': 0|1, 'stream': 0|1,
+                ('genx': OUT  - optional, C01 only, streamed pages only: what a 'gen<k>' body raises instead of an
+                                ordinary Exception; the model has one answer for every Exception class there)
                 'hooks': [[point 0..7, id, priority, failsafe 0|1, OUT(, VIA)], ...]
                          # VIA (optional): 'c' = a Hook object in config `hooks.<point>.<n>` (default);
                          # 'cd' = the bare callable in config (only for priority 50, not fail-safe: the documented
@@ -384,7 +386,20 @@ def _ep_fail(**kw):
     raise ProbeError('%s-errpage' % MARK)
 
 
-def _gen_body(k):
+def _gen_exc(out):
+    """The exception object a failing generator raises for the optional page key 'genx' (an OUT other than 'ok' /
+    'ex': CherryPy's own control-flow classes), built while the request is live."""
+    k, n = out[:2], int(out[2:])
+    if k == 'he':
+        return cherrypy.HTTPError(n, 'VPMSG-gen')
+    if k == 'hr':
+        return cherrypy.HTTPRedirect('/elsewhere', n)
+    if k == 'ir':
+        return cherrypy.InternalRedirect('/p%d' % n)
+    raise common.HarnessError('bad genx %r' % out)
+
+
+def _gen_body(k, exc=None, out='ex'):
     if k is None:
         yield PAGE_CHUNK
         yield PAGE_CHUNK
@@ -392,7 +407,9 @@ def _gen_body(k):
     for _ in range(k):
         yield PAGE_CHUNK
     if _run[0] is not None:
-        _run[0].sites.append(('gen', 'ex'))
+        _run[0].sites.append(('gen', out))
+    if exc is not None:
+        raise exc
     raise ProbeError('%s-gen' % MARK)
 
 
@@ -422,6 +439,10 @@ class Root:
         if shape == 'gen':
             return _gen_body(None)
         if shape.startswith('gen'):
+            # optional page key 'genx' (C01): the class of what the generator raises
+            genx = self.pages[idx].get('genx')
+            if genx and genx != 'ex':
+                return _gen_body(int(shape[3:]), _gen_exc(genx), genx)
             return _gen_body(int(shape[3:]))
         if shape == 'file':
             return io.BytesIO(PAGE_CHUNK * 3)
